@@ -10,13 +10,14 @@ from sim import gen as G
 
 TE, AE = 'TypeError', 'AssertionError'
 
-BAD_OBJS = ['list', 'none', 'dict', 'str', 'int']
+BAD_OBJS = ['list', 'none', 'dict', 'str', 'int', 'empty_list', 'zero',
+            'empty_str']
 
 JOIN_CORR = [
     ('ltable_not_df', TE), ('rtable_not_df', TE), ('tokenizer_not_tok', TE),
     ('l_key_unknown', AE), ('r_key_unknown', AE), ('l_attr_unknown', AE),
     ('r_attr_unknown', AE), ('l_attr_numeric', AE), ('r_attr_numeric', AE),
-    ('l_out_unknown', AE), ('r_out_unknown', AE), ('l_key_dup', AE),
+    ('l_out_unknown', AE), ('r_out_unknown', AE), ('l_out_other', AE), ('r_out_other', AE), ('l_key_dup', AE),
     ('r_key_dup', AE), ('l_key_nan', AE), ('r_key_nan', AE),
     ('threshold_low', AE), ('threshold_high', AE), ('comp_op_bad', AE),
     ('l_key_dup_inplace', AE), ('r_key_dup_inplace', AE)]
@@ -30,7 +31,7 @@ FT_CORR = [('ltable_not_df', TE), ('rtable_not_df', TE),
            ('l_key_unknown', AE), ('r_key_unknown', AE),
            ('l_attr_unknown', AE), ('r_attr_unknown', AE),
            ('l_attr_numeric', AE), ('r_attr_numeric', AE),
-           ('l_out_unknown', AE), ('r_out_unknown', AE), ('l_key_dup', AE),
+           ('l_out_unknown', AE), ('r_out_unknown', AE), ('l_out_other', AE), ('r_out_other', AE), ('l_key_dup', AE),
            ('r_key_dup', AE), ('l_key_nan', AE), ('r_key_nan', AE),
            ('l_key_dup_inplace', AE), ('r_key_dup_inplace', AE)]
 FC_CORR = [('candset_not_df', TE), ('c_l_unknown', AE), ('c_r_unknown', AE),
@@ -45,7 +46,7 @@ AM_CORR = [('candset_not_df', TE), ('c_l_unknown', AE), ('c_r_unknown', AE),
            ('ltable_not_df', TE), ('rtable_not_df', TE),
            ('l_key_unknown', AE), ('r_key_unknown', AE),
            ('l_attr_unknown', AE), ('r_attr_unknown', AE),
-           ('l_out_unknown', AE), ('r_out_unknown', AE),
+           ('l_out_unknown', AE), ('r_out_unknown', AE), ('l_out_other', AE), ('r_out_other', AE),
            ('tokenizer_not_tok', TE), ('comp_op_bad', AE),
            ('l_key_dup', AE), ('r_key_dup', AE), ('l_key_nan', AE),
            ('r_key_nan', AE), ('l_key_dup_inplace', AE),
@@ -148,7 +149,11 @@ def corrupt(g, base, corr):
     elif corr == 'candset_not_df':
         op['candset'] = {'bad': rng.choice(BAD_OBJS)}
     elif corr == 'tokenizer_not_tok':
-        bad = {'bad': rng.choice(['str', 'int', 'list', 'dict'] +
+        # falsy non-tokenizers too ('' / 0 / [] / False): `if tokenizer:` is
+        # not `if tokenizer is not None:`
+        bad = {'bad': rng.choice(['str', 'int', 'list', 'dict', 'empty_str',
+                                  'zero', 'empty_list', 'false',
+                                  'empty_dict'] +
                                  (['none'] if kind != 'apply_matcher'
                                   else []))}
         if kind == 'new_filter':
@@ -172,6 +177,20 @@ def corrupt(g, base, corr):
         op['attrs'] = (op.get('attrs') or []) + ['nope']
     elif corr.endswith('_attr_numeric'):
         op[corr[0] + '_attr'] = 'num'
+    elif corr.endswith('_out_other'):
+        # a column that exists, but only in the *other* table
+        side, other = corr[0], ('r' if corr[0] == 'l' else 'l')
+        if not isinstance(op.get('l'), str) or not isinstance(op.get('r'),
+                                                              str):
+            return None
+        mine = g.case['tables'][op[side]]['columns']
+        theirs = g.case['tables'][op[other]]['columns']
+        only = [c for c in theirs if c not in mine]
+        if not only:
+            return None
+        cur = list(op.get(side + '_out') or [])
+        cur.insert(rng.randint(0, len(cur)), rng.choice(only))
+        op[side + '_out'] = cur
     elif corr.endswith('_out_unknown'):
         cur = op.get(corr[0] + '_out') or []
         cur = list(cur)
